@@ -50,6 +50,14 @@ Theorem C02_manifest_injective : forall es es', Decodable es -> Decodable es' ->
 Proof. exact dir_manifest_injective. Qed.
 Print Assumptions C02_manifest_injective.
 
+(* ... and, the other way round, entry sets whose (mode, name, target) triples differ
+   (one target or mode changed, two targets swapped, an entry renamed, dropped or
+   added) never share a manifest. *)
+Theorem C02_distinct_sets_distinct_manifests : forall es es', Decodable es -> Decodable es' ->
+  ~ Permutation (map triple_of es) (map triple_of es') -> dir_manifest es <> dir_manifest es'.
+Proof. exact dir_manifest_separates. Qed.
+Print Assumptions C02_distinct_sets_distinct_manifests.
+
 (* Nothing but the entry set influences the id (for every hash function H). *)
 Theorem C02_only_entries : forall (H : bytes -> bytes) d d',
   d_raw_manifest d = None -> d_raw_manifest d' = None ->
@@ -57,6 +65,17 @@ Theorem C02_only_entries : forall (H : bytes -> bytes) d d',
   dir_compute_hash H d = dir_compute_hash H d'.
 Proof. exact dir_id_only_entries. Qed.
 Print Assumptions C02_only_entries.
+
+(* The one documented exception: a recorded raw_manifest (b"" included) replaces the
+   entries in compute_hash; raw_manifest=None given explicitly is the default. *)
+Theorem C02_raw_manifest_overrides : forall (H : bytes -> bytes) d m,
+  d_raw_manifest d = Some m -> dir_compute_hash H d = H m.
+Proof. exact dir_raw_manifest_wins. Qed.
+Print Assumptions C02_raw_manifest_overrides.
+Theorem C02_no_raw_manifest_is_default : forall (H : bytes -> bytes) es,
+  dir_compute_hash H {| d_entries := es; d_raw_manifest := None |} = dir_id H es.
+Proof. exact dir_no_raw_is_dir_id. Qed.
+Print Assumptions C02_no_raw_manifest_is_default.
 
 (* The boolean validator of the model is the stated domain. *)
 Theorem C02_valid_iff : forall es, valid_dir es = true <-> Valid es.
